@@ -476,6 +476,22 @@ class World:
                         st["exc"] = type(e).__name__
                 elif a["op"] == "serialize":
                     pass
+                elif a["op"] == "other":
+                    # another instance of the same class comes into being; whether that succeeds is not this property's business
+                    try:
+                        if a["how"] == "construct":
+                            if c.get("from_bytes") is None:
+                                a2 = {}
+                                self._collect(self.code_of(c["obj"]["_t"]), c["obj"], a2, salt)
+                                self.cls_of(c["obj"]["_t"])(**a2)
+                            else:
+                                cls.deserialize(self.reader_mod.EoReader(bytes(c["from_bytes"])))
+                        else:
+                            base_ = out["initial"]["ser"] if isinstance(out["initial"]["ser"], list) else []
+                            data_ = base_ + [1, 2] if a["how"] == "longer" else base_[:-1]
+                            cls.deserialize(self.reader_mod.EoReader(bytes(data_)))
+                    except Exception as e:
+                        st["other_exc"] = type(e).__name__
             except Exception as e:
                 st["exc"] = "HARNESS " + type(e).__name__ + str(e)[:60]
             st.update(snap())
